@@ -2,7 +2,8 @@
 
 
 def run(ctx):
-    ctx.lean_obligations(["SV.Props.C03"], drivers=["svdriver_c03"])
+    ctx.regen_go2lean()
+    ctx.lean_obligations(["SV.Props.C03", "SV.Props.C03gen2", "SV.Props.C03x"], drivers=["svdriver_c03"])
     quick = ctx.tier == "quick"
     plan = [
         ("", "h_estargz_c03", "c03gzip", 150 if quick else 3000),
@@ -21,6 +22,12 @@ def run(ctx):
             ctx.correspond(b, "TestVerifC03", "svdriver_c03", tag + "-findings",
                            env={"VERIF_N": 0, "VERIF_MAXCHECK": 60000, "VERIF_C03_STREAM": "findings"},
                            timeout=600)
+            # histories of sessions in one process: reference / failed session(s) / victim judged by the full
+            # oracle + model + checker, plus the isolation oracle (same TOCDigest / DiffID as before the fault)
+            ctx.correspond(b, "TestVerifC03", "svdriver_c03", tag + "-faults",
+                           env={"VERIF_N": (36 if tag == "c03gzip" else 24) if quick else 240, "VERIF_MAXCHECK": 60000,
+                                "VERIF_C03_STREAM": "faults"},
+                           timeout=600 if quick else 1500)
     return ctx.finish(
         level="proof",
         rule="tars of 0..9 entries per AppendTar call (regular files of size 0, 1, c-1, c, c+1, k*c-1..k*c+1 and random, "
@@ -33,7 +40,14 @@ def run(ctx):
              "documented rules, (a) validated by the proved checkIndex, (b) compared entry by entry / member by member with "
              "the model's bookkeeping under the recorded compressor oracle, (c) judged by the property oracle "
              "(stream = input + documented additions, every chunk read = file bytes, digests, DiffID, sizes, lossless "
-             "identity, Open+VerifyTOC, Unpack).",
+             "identity, Open+VerifyTOC, Unpack). Fault stream (own pass per format): histories of sessions in ONE process - "
+             "a reference run of a victim case, then 1..3 sessions made to FAIL (input tar truncated inside a payload / at "
+             "the last byte / inside a header, for Writer, lossless and Build; write error below the compressor after n "
+             "compressed bytes, Writer and parallel Build; Compression.Writer refusing the k-th member; an entry the writer "
+             "rejects after good ones; 3 concurrent sessions held by a channel barrier in the middle of a chunk and failed "
+             "together; 3 concurrent truncated inputs), then the victim again through the full oracle, the model (m.fault = "
+             "identity on what follows) and the checker, plus the isolation oracle (TOCDigest / DiffID equal to the reference) "
+             "and the per-chunk digester discipline (d.chunk) against SV.DigestPool.",
         assumptions=[
             "gzip / zstd / tar codecs are trusted (abstract members, abstract header bytes): tar header re-encoding "
             "is compared per output, not proved",
